@@ -7,6 +7,8 @@ import os, re, subprocess, sys, json, shutil
 prop, var = sys.argv[1], sys.argv[2]
 wt = f"/tmp/wt2-{prop}" if var in "CD" else f"/tmp/wt-{prop}"
 out = f"/tmp/seedout2-{prop}" if var in "CD" else f"/tmp/seedout-{prop}"
+if prop.startswith("T"):
+    wt = f"/tmp/wt3-{prop}"; out = f"/tmp/seedout3-{prop}"
 env = dict(os.environ, GOFLAGS="-mod=mod", GOPROXY="off", GOSUMDB="off", GOTOOLCHAIN="local")
 def run(cmd, cwd=wt):
     p = subprocess.run(cmd, cwd=cwd, shell=True, env=env, capture_output=True, text=True, errors="replace")
